@@ -9,7 +9,7 @@ from pulser.pulse import Pulse
 from pulser.channels.dmm import DMM
 
 VERIF = os.path.dirname(os.path.dirname(os.path.abspath(__file__)))
-PROP_GROUP = {"C16": ["C16"], "C03": ["C03"], "C10": ["C10"], "C02": ["C02"], "C01": ["C01"], "C09": ["C09"], "C07": ["C07"], "C13": ["C13"], "C15": ["C15"]}
+PROP_GROUP = {"C18": ["C18"], "C16": ["C16"], "C03": ["C03"], "C10": ["C10"], "C02": ["C02"], "C01": ["C01"], "C09": ["C09"], "C07": ["C07"], "C13": ["C13"], "C15": ["C15"]}
 
 
 def load_known(prop):
@@ -75,6 +75,11 @@ def classify_known(prop, msg, op, cfg, before, after, known):
         if not (pat and pat in msg):
             continue
         kid = k["id"]
+        if kid.startswith("KF-C18"):
+            # the variant device differs from the original only in the field(s) the finding names
+            if op and op[0] == "final" and set(op[1].get("changed", [])) and set(op[1]["changed"]) <= set(k.get("fields", [])):
+                return kid
+            continue
         if kid == "KF-C01-1":
             ch = cfg["channels"].get(op[2]) if op and len(op) > 2 else None
             if ch and ch["max_duration"] is not None and ch["max_duration"] % ch["clock_period"] != 0:
@@ -521,4 +526,82 @@ def boundaries(cfg, ops, build_device, apply_op, Register, Sequence):
             for sl in cs.slots:
                 if sl.tf > 0:
                     out.add(int(sl.tf))
+    return out
+
+
+# --------------------------------------------------------------------------
+def _timeline(seq):
+    return {name: [slot_repr(s) for s in cs.slots] for name, cs in seq._schedule.items()}
+
+
+def final_C18(seq, cfg, ctx, build_device, rng):
+    """switch the finished sequence to variants of its own device"""
+    import copy
+    out = []
+    if seq.is_parametrized() or not seq._schedule:
+        return out
+    base = _timeline(seq)
+    uses_eom = any(cs.eom_blocks for cs in seq._schedule.values())
+    variants = [([], lambda c: None)]
+    names = list(cfg["channels"])
+    nm = names[rng.randrange(len(names))]
+
+    def setf(field, val):
+        def f(c):
+            c["channels"][nm][field] = val
+        return f
+    ch = cfg["channels"][nm]
+    variants += [
+        (["min_duration"], setf("min_duration", {1: 4, 4: 16, 5: 20, 16: 4, 20: 4}.get(ch["min_duration"], 8))),
+        (["custom_phase_jump_time"], setf("custom_phase_jump_time", 0 if ch["custom_phase_jump_time"] != 0 else 80)),
+        (["max_duration"], setf("max_duration", 200 if ch["max_duration"] != 200 else 300)),
+        (["clock_period"], setf("clock_period", {1: 4, 2: 4, 4: 8, 5: 4, 8: 4}[ch["clock_period"]])),
+        (["mod_bandwidth"], setf("mod_bandwidth", 8.0 if ch["mod_bandwidth"] != 8.0 else 4.0)),
+        (["max_amp"], setf("max_amp", 5.0)),
+    ]
+    if ch.get("eom"):
+        variants.append((["eom.custom_buffer_time"], lambda c: c["channels"][nm]["eom"].__setitem__("custom_buffer_time", 100 if ch["eom"]["custom_buffer_time"] != 100 else 240)))
+    if ch["local"]:
+        variants.append((["fixed_retarget_t"], setf("fixed_retarget_t", 40 if ch["fixed_retarget_t"] != 40 else 0)))
+        variants.append((["min_retarget_interval"], setf("min_retarget_interval", 0 if ch["min_retarget_interval"] != 0 else 220)))
+        variants.append((["min_retarget_interval"], setf("min_retarget_interval", ch["fixed_retarget_t"])))
+    for changed, mut in variants:
+        cfg2 = copy.deepcopy(cfg)
+        mut(cfg2)
+        c2 = cfg2["channels"][nm]
+        if c2["max_duration"] is not None and c2["max_duration"] < c2["min_duration"]:
+            continue
+        try:
+            dev2 = build_device(cfg2)
+        except Exception:
+            continue
+        extra = dict(changed=changed, channel=nm, uses_eom=uses_eom)
+        for strict in (True, False):
+            try:
+                import warnings
+                with warnings.catch_warnings():
+                    warnings.simplefilter("ignore")
+                    new = seq.switch_device(dev2, strict=strict)
+            except Exception:
+                continue
+            if strict:
+                if _timeline(new) != base:
+                    out.append((f"strict switch_device to a device differing in {changed} on {nm} changed the timeline", extra))
+            else:
+                # the result must satisfy the new device's limits
+                nctx = dict(ctx, dev=dev2)
+                snap0 = dict(schedule={n_: dict(slots=[]) for n_ in new._schedule}, refs={})
+                for m in check_C01(new, snap0, snapshot(new), ("final",), True, nctx, None) + check_C02(new, snapshot(new), snapshot(new), ("final",), True, nctx, None):
+                    if "moved or changed" in m:
+                        continue
+                    out.append((f"non-strict switch_device (variant {changed} on {nm}) gives a sequence violating the new device: {m}", extra))
+    # switch_register with the same ids keeps the timeline
+    try:
+        from pulser import Register
+        reg2 = Register({q: (float(p[0]) + 0.0, float(p[1]) + 1.0) for q, p in ctx["reg"].qubits.items()})
+        new = seq.switch_register(reg2)
+        if _timeline(new) != base:
+            out.append(("switch_register to a register with the same ids changed the timeline", dict(changed=["register"], channel=None)))
+    except Exception:
+        pass
     return out
